@@ -733,6 +733,38 @@ def concat_sigma_star(A: DFA) -> DFA:
     return DFA(trans, list(A.acc) + [True])
 
 
+def quotient_byte(A: DFA, byte: int) -> DFA:
+    """{ w : w + bytes([byte]) in L(A) }"""
+    b = 1 << byte
+    acc = []
+    for s in range(A.nstates):
+        acc.append(any(m & b and A.acc[t] for m, t in A.trans[s]))
+    return DFA([list(r) for r in A.trans], acc)
+
+
+def ordered_alternatives(pattern):
+    """The alternatives of a pattern that is one alternation (possibly wrapped in one capture / non-capture group):
+    [(look-ahead tree or None, body tree)] in priority order, plus the flags.  None when the pattern is not of that form."""
+    tree, fl, _notes = parse(pattern)
+    items = list(tree)
+    while len(items) == 1 and items[0][0] is sc.SUBPATTERN:
+        g, add, dele, sub = items[0][1]
+        fl = (fl | add) & ~dele
+        items = list(sub)
+    if len(items) != 1 or items[0][0] is not sc.BRANCH:
+        return None
+    out = []
+    for alt in items[0][1][1]:
+        alt = list(alt)
+        la = None
+        if alt and alt[0][0] is sc.ASSERT and alt[0][1][0] == 1:
+            la, alt = alt[0][1][1], alt[1:]
+        if any(op in (sc.ASSERT, sc.ASSERT_NOT) for op, _av in alt):
+            return None
+        out.append((la, alt))
+    return out, fl
+
+
 def embed_dfa(n: NFA, d: DFA, cur):
     base = {}
     for s in range(d.nstates):
